@@ -191,6 +191,26 @@ func c10Run(r *runCtx, id string, f []string) {
 	s := metrics.NewStore()
 	_ = s.Add(m)
 	_ = s.Add(other)
+	// two more bystanders, named so that the pass meets one before and one after `m` whatever its
+	// order, holding the very label tuples the history used, old and never marked for expiry:
+	// what is collected from one metric is collected from that metric only
+	var twins []*metrics.Metric
+	for _, nm := range []string{"a-twin", "z-twin"} {
+		tw := metrics.NewMetric(nm, "p", metrics.Gauge, metrics.Int, "k")
+		for _, op := range ops {
+			q := strings.Split(op, ":")
+			if len(q) > 1 {
+				d, _ := tw.GetDatum(unhxs(q[1])...)
+				datum.SetInt(d, 7, now0.Add(-100*time.Hour))
+			}
+		}
+		_ = s.Add(tw)
+		twins = append(twins, tw)
+	}
+	twinBefore := 0
+	for _, tw := range twins {
+		twinBefore += len(tw.LabelValues)
+	}
 	before := len(m.LabelValues)
 	// every third case: a reader (an export, say) holds the metric when the pass reaches it and
 	// lets go a little later; the pass waits, it does not skip the metric
@@ -291,6 +311,13 @@ func c10Run(r *runCtx, id string, f []string) {
 		bad = append(bad, "label sets present that were never created")
 	}
 	got := strings.Join(dump, "|")
+	twinAfter := 0
+	for _, tw := range twins {
+		twinAfter += len(tw.LabelValues)
+	}
+	if twinAfter != twinBefore {
+		bad = append(bad, fmt.Sprintf("two metrics with the same label tuples, never marked, held %d data before the pass and %d after", twinBefore, twinAfter))
+	}
 	if len(bad) > 0 || err != nil || len(other.LabelValues) != 3 || agree != 1 || len(m.VerifIndex()) != len(m.LabelValues) {
 		r.fail(id, "gc-survivors", "limit %d ops %s: after Gc `%s` (err=%v other=%d agree=%d): %s", limit, f[2], got, err, len(other.LabelValues), agree, strings.Join(bad, "; "))
 	} else {
